@@ -65,7 +65,10 @@ Check ==
                     ELSE IF p.op = "delx" /\ Ev.r = "ok" /\ credit[p.k] = 0 THEN "del-returned-without-effect"
                     ELSE IF ClassOf(p) \in DOMAIN seen /\ seen[ClassOf(p)] # Verdict(p, Ev.r) THEN "flavours-disagree"
                     ELSE "ok")
-              ELSE IF Ev.r # "ok" THEN "mutation-failed"
+              ELSE IF Ev.r # "ok" THEN
+                   \* C17: an error is acceptable only where the options refuse mutations; then the call must not have had an effect
+                   (IF ~p.mf THEN "mutation-failed"
+                    ELSE IF p.done \/ (p.op \in {"del", "delx"} /\ credit[p.k] >= PendingDels(p.k)) THEN "rejected-call-had-effect" ELSE "ok")
               ELSE IF p.op \in {"put", "putx"} THEN (IF p.done THEN "ok" ELSE "put-returned-without-effect")
               ELSE (IF credit[p.k] > 0 THEN "ok" ELSE "del-returned-without-effect")
     [] Ev.t = "put" ->
@@ -131,7 +134,11 @@ Check ==
          \* held) was attempted on the real code and must not have completed before its enabler was released
          IF Ev.still THEN "ok" ELSE "disabled-step-completed"
     [] Ev.t = "bgfail" -> "background-failure"
-    [] Ev.t \in {"rotwal", "note"} -> "ok"
+    \* schedule replay (GenSimpleDBConc.tla): the reply of a Get must be the one the model computed for this very interleaving, and
+    \* every step the model enabled must complete on the real code
+    [] Ev.t = "schedget" -> IF Ev.exp # Ev.got THEN "get-reply-differs-from-model-schedule" ELSE "ok"
+    [] Ev.t = "schedstuck" -> "model-enabled-step-does-not-complete"
+    [] Ev.t \in {"rotwal", "note", "scheddone"} -> "ok"
     [] OTHER -> "unknown-event"
 
 \* ------------------------------------------------------------------ per event: effect on the specification state
@@ -140,7 +147,9 @@ Effect ==
          /\ phase' = "open" /\ cfg' = Ev.cfg /\ gen' = Ev.gen
          /\ UNCHANGED <<mem, imm, queue, fpc, tables, refl, csel, cout, ccfg, model, pend, credit, seen>>
     [] Ev.t = "inv" ->
-         /\ pend' = pend @@ (Ev.g :> [op |-> Ev.op, k |-> Ev.k, v |-> Ev.v, kc |-> Ev.kc, vc |-> Ev.vc, fl |-> Ev.fl, done |-> FALSE, cand |-> {ReadNow[Ev.k]}])
+         /\ pend' = pend @@ (Ev.g :> [op |-> Ev.op, k |-> Ev.k, v |-> Ev.v, kc |-> Ev.kc, vc |-> Ev.vc, fl |-> Ev.fl, done |-> FALSE, cand |-> {ReadNow[Ev.k]},
+                                            \* mf: the session's options make every mutation fail by design (direct-I/O WAL without the asynchronous mode)
+                                            mf |-> IF "mf" \in DOMAIN Ev THEN Ev.mf ELSE FALSE])
          /\ UNCHANGED <<mem, imm, queue, fpc, tables, gen, refl, csel, cout, ccfg, cfg, model, phase, credit, seen>>
     [] Ev.t = "ret" ->
          /\ pend' = [g \in DOMAIN pend \ {Ev.g} |-> pend[g]]
